@@ -22,15 +22,40 @@ Open Scope Z_scope.
 Inductive lop :=                      (* row-level meaning of a step *)
 | LCreate (t : Z) | LIns (t k v : Z) | LUpd (t k v : Z) | LDel (t k : Z) | LBegin | LCommit | LNone.
 
+(* plain constructors instead of tuples: coqc elaborates the case files several times faster *)
+Inductive z2 := R2 (a b : Z).
+Inductive z3 := R3 (a b c : Z).
+Inductive ctab := CT (t : Z) (rows : option (list z2)).      (* None = unreadable or missing, else rows (id, v) sorted *)
+Inductive cstep := CS (l : lop) (o : op) (ph : list phys).
+
 Inductive cobs :=
 | CObs (i : Z) (j : Z)                (* crash after the j-th io event of step i; j = -1: after the step returned *)
        (power : bool)
        (open : Z)                     (* 0 ok, 1 error, 2 panic *)
-       (tables : list (Z * option (list (Z * Z))))   (* per table: None = unreadable or missing, else rows (id, v) sorted *)
+       (tables : list ctab)
        (probe_ok : bool)              (* SELECT .. WHERE id = k agrees with the scan for every key *)
-       (pages : list (Z * Z * Z)).    (* recovered data files: (file, page, image), zero pages omitted, -1 = unknown image *)
+       (pages : list z3).             (* recovered data files: (file, page, image), zero pages omitted, -1 = unknown image *)
 
-Inductive case := Case (steps : list (lop * op * list phys)) (obs : list cobs).
+(* what one reopened crash image looked like; many crash points share an image *)
+Inductive cimg := CImg (open : Z) (tables : list ctab) (probe_ok : bool) (pages : list z3).
+Inductive cpoint := CP (i j : Z) (power : bool) (img : Z).
+
+Inductive case := Case (steps : list cstep) (imgs : list cimg) (points : list cpoint).
+
+Definition obs_of (imgs : list cimg) (p : cpoint) : cobs :=
+  match p with
+  | CP i j pw k =>
+      match nth_error imgs (Z.to_nat k) with
+      | Some (CImg o t pr pg) => CObs i j pw o t pr pg
+      | None => CObs i j pw 3 [] false []
+      end
+  end.
+
+Definition of_z2 (x : z2) : Z * Z := match x with R2 a b => (a, b) end.
+Definition of_z3 (x : z3) : Z * Z * Z := match x with R3 a b c => (a, b, c) end.
+Definition of_ctab (x : ctab) : Z * option (list (Z * Z)) :=
+  match x with CT t r => (t, match r with Some l => Some (map of_z2 l) | None => None end) end.
+Definition of_cstep (x : cstep) : lop * op * list phys := match x with CS l o ph => (l, o, ph) end.
 
 (* ------------------------------------------------------------------ small list utilities *)
 Definition zle3 (a b : Z * Z * Z) : bool :=
@@ -103,7 +128,9 @@ Definition pages_agree (dom : list key) (m : pmap) (pages : list (Z * Z * Z)) : 
 
 Definition image_agrees (dom : list key) (im : image) (o : cobs) : bool :=
   match o with
-  | CObs _ _ _ open tables _ pages =>
+  | CObs _ _ _ open tables0 _ pages0 =>
+      let tables := map of_ctab tables0 in
+      let pages := map of_z3 pages0 in
       if r_open im
       then (open =? 0)
            && forallb (fun x => match snd x with Some _ => mem (fst x) (r_tabs im) | None => true end) tables
@@ -188,7 +215,8 @@ Definition keys_of (a b : rows) : list Z := map fst a ++ map fst b.
    statement names has exactly its acknowledged value (present with that value, or absent) *)
 Definition c01_ok (lops : list lop) (o : cobs) : bool :=
   match o with
-  | CObs i j _ open tables _ _ =>
+  | CObs i j _ open tables0 _ _ =>
+      let tables := map of_ctab tables0 in
       let '(a, infl) := split_at lops (Z.to_nat i) (j <? 0) in
       let acked := lrun [] (firstn a lops) in
       let touched := flat_map lop_touch infl in
@@ -223,7 +251,9 @@ Definition class_at (sts : list st) (os : list op) (o : cobs) : Z :=
 (* ------------------------------------------------------------------ the three judgements *)
 Definition model_agrees (c : case) : bool :=
   match c with
-  | Case steps obs =>
+  | Case steps0 imgs pts =>
+      let obs := map (obs_of imgs) pts in
+      let steps := map of_cstep steps0 in
       let os := ops_of steps in
       let sts := states_from init os in
       let dom := domain os in
@@ -231,12 +261,14 @@ Definition model_agrees (c : case) : bool :=
   end.
 
 Definition spec_ok (c : case) : bool :=
-  match c with Case steps obs => forallb (c01_ok (lops_of steps)) obs end.
+  match c with Case steps imgs pts => forallb (c01_ok (lops_of (map of_cstep steps))) (map (obs_of imgs) pts) end.
 
 (* one entry per distinct (model_agrees, spec_ok, class) among the crash points that fail *)
 Definition judge (spec : list lop -> cobs -> bool) (c : case) : list (bool * bool * Z) :=
   match c with
-  | Case steps obs =>
+  | Case steps0 imgs pts =>
+      let obs := map (obs_of imgs) pts in
+      let steps := map of_cstep steps0 in
       let os := ops_of steps in
       let sts := states_from init os in
       let dom := domain os in
